@@ -1,26 +1,9 @@
 (* Scratch: C13 second half / C01 clause 3 restated over a guard predicate that both the parser's
    output shape and (decoded shape + Validate) imply *)
 Require Import Parser ParserShape Render RenderStr RenderStr2 RenderTotal RenderWfOk RenderInline RenderParamTotal.
+Require Export Guard.
 From Coq Require Import List Ascii String ZArith Bool Lia Arith.
 Import ListNotations.
-
-(* what the directly recursive renderers need *)
-Fixpoint gok (e : expr) {struct e} : bool :=
-  match e with
-  | E l op r _ _ =>
-    (match op with
-     | Range => match r with VBound (VExp a) (VExp b) _ => ParserShape.is_leaf a && ParserShape.is_leaf b | _ => false end
-     | Like => match r with VExp x => is_pattern x | _ => false end
-     | _ => true
-     end) && gv l && gv r
-  end
-with gv (v : value) {struct v} : bool :=
-  match v with
-  | VExp e => gok e
-  | VList l => (fix all (l : list expr) : bool := match l with [] => true | x :: r => gok x && all r end) l
-  | VBound a b _ => gv a && gv b
-  | _ => true
-  end.
 
 Section G.
 Variable o2 : oracle2.
@@ -61,7 +44,7 @@ Proof.
     destruct (IHv r ltac:(lia) Gr) as [[[rt rp] [er|]] Er]; rewrite Er; cbn [bind]; [eexists; reflexivity|].
     destruct op; try (apply rp_node_simple; discriminate).
     - (* Like *) destruct r as [| | | | | | x | |]; try discriminate.
-      assert (Lx : ParserShape.is_leaf x = true) by (destruct x as [xl xo xr ? ?]; destruct xo, xl, xr; cbn in Gop |- *; try discriminate; reflexivity).
+      assert (Lx : Shape.is_leaf x = true) by (destruct x as [xl xo xr ? ?]; destruct xo, xl, xr; cbn in Gop |- *; try discriminate; reflexivity).
       destruct (leaf_render o2 x Lx) as [y [Ey [_ PO]]]. rewrite ser_param_exp, Ey in Er. inversion Er; subst.
       apply rp_node_like. exact (PO Gop).
     - (* Range *) destruct r as [| | | | | | | |mn mx incl]; try discriminate.
